@@ -86,7 +86,12 @@ def _locate_slice_strict(values, start, stop, step, issorted=False):
     istop = locate_one(values, stop, issorted=issorted) if stop is not None else None
     # include last element
     if stop is not None:
-        istop += -1+2*(step is None or step>0)
+        if step is None or step > 0:
+            istop += 1
+        elif istop == 0:
+            istop = None  # down to and including the first element (-1 would wrap around)
+        else:
+            istop -= 1
     return istart, istop
 
 def locate_slice(values, start, stop, step, issorted=False):
@@ -106,7 +111,7 @@ def locate_slice(values, start, stop, step, issorted=False):
     # bbox-like slices only make sense for monotonically varying axes
     if not issorted:
         monotonic = is_monotonic_equal(values)
-        issorted = monotonic and values[-1] >= values[0]
+        issorted = monotonic and (values.size < 2 or values[-1] >= values[0])
     else:
         monotonic = True
 
@@ -139,6 +144,8 @@ def locate_slice(values, start, stop, step, issorted=False):
 
         if step is not None and step < 0:
             istart -= 1
+            if istart < 0:
+                return 0, 0  # no label at or before `start`: empty (-1 would wrap around)
     else:
         istart = None
 
